@@ -45,6 +45,7 @@ func init() {
 	mutExtra["cleanup-in-log-dir"] = [2]string{"	\"io/fs\"\n", "	\"io/fs\"\n	\"os\"\n"}
 	addSelfTests("C21",
 		mutation{"apply-without-log", "kv/aof/kv.go", "			} else if logError := d.appendLog(m.mut); logError == nil {", "			} else if m.mut.GetType() == proto.MutationType_REMOVE_KEYS {\n				mutError = d.handleMutation(m.mut)\n			} else if logError := d.appendLog(m.mut); logError == nil {", "write-ahead"},
+		mutation{"repeated-fields-keep-backing-arrays", "kv/aof/log.go", "		entry.Reset()\n		mut.Reset()", "		entry.Reset()\n		keys, values := mut.Keys[:0], mut.Values[:0]\n		mut.Reset()\n		mut.Keys, mut.Values = keys, values", "fresh-decode"},
 		mutation{"resetvt-reuses-buffers", "kv/aof/log.go", "		entry.Reset()\n		mut.Reset()", "		entry.ResetVT()\n		mut.ResetVT()", "fresh-decode"},
 		mutation{"no-reset", "kv/aof/log.go", "		entry.Reset()\n		mut.Reset()", "		entry.Reset()", "fresh-decode"},
 		mutation{"checksum-other-buffer", "kv/aof/log.go", "	entry.Checksum = crc64.Checksum(mutBuf, crcTable)", "	entry.Checksum = crc64.Checksum(mutBuf[:len(mutBuf)/2], crcTable)", "codec-agreement"},
@@ -55,6 +56,7 @@ func init() {
 		mutation{"checksum-not-enforced", "kv/aof/log.go", "		err = fmt.Errorf(\"log entry checksum does not match, possibly corrupted log\")\n		return", "		err = fmt.Errorf(\"log entry checksum does not match, possibly corrupted log\")", "replay-guard"},
 		mutation{"skip-undecodable", "kv/aof/log.go", "		if err := entry.UnmarshalVT(buf); err != nil {\n			return fmt.Errorf(\"error deserializing log at index %d: %w\", i, err)\n		}", "		if err := entry.UnmarshalVT(buf); err != nil {\n			continue\n		}", "replay-guard"},
 		mutation{"replay-from-two", "kv/aof/log.go", "	for i := uint64(1); i <= index; i++ {", "	for i := uint64(2); i <= index; i++ {", "replay-order"},
+		mutation{"entry-not-reset-between-records", "kv/aof/log.go", "		entry.Reset()\n		mut.Reset()", "		mut.Reset()", "replay-guard"},
 		mutation{"version-by-if", "kv/aof/log.go", "	switch entry.GetVersion() {\n	case proto.LogVersion_V1:\n		// uncompressed\n		err = mut.UnmarshalVT(entry.Data)\n	default:\n		err = fmt.Errorf(\"unknown log version: %s\", entry.GetVersion())\n	}\n	return", "	if entry.GetVersion() != proto.LogVersion_V1 {\n		return fmt.Errorf(\"unknown log version: %s\", entry.GetVersion())\n	}\n	// uncompressed\n	err = mut.UnmarshalVT(entry.Data)\n	return", "!replay-guard"},
 		mutation{"unknown-version-silently-ok", "kv/aof/log.go", "	default:\n		err = fmt.Errorf(\"unknown log version: %s\", entry.GetVersion())\n	}", "	}", "replay-guard"},
 		mutation{"unknown-version-accepted", "kv/aof/log.go", "	default:\n		err = fmt.Errorf(\"unknown log version: %s\", entry.GetVersion())", "	default:\n		err = mut.UnmarshalVT(entry.Data)", "replay-guard"},
@@ -369,7 +371,15 @@ func validatorRejects(v *Fn, kind, sentinel string) bool {
 
 // ---------------------------------------------------------------------------------------
 
-func runC21(c *Ctx) {
+// freshDecodeRule: the two messages replayLogs decodes into are reused across entries.
+// UnmarshalVT merges into whatever the message already holds (fields absent from the
+// record keep their old value, repeated fields append into old backing arrays) and the
+// in-memory store retains the decoded slices, so each decode must start from an all-zero
+// message: allocated per iteration, or reset with the allocation-dropping Reset() on every
+// path from the apply back to the next decode, with no field of it assigned in between.
+// Shared by C21 (restart reproduces the state) and C22 (a zero-filled record must not
+// inherit the previous entry's version, data and checksum).
+func freshDecodeRule(c *Ctx, rule string) {
 	replay := c.Func("kv/aof", "DiskKV", "replayLogs")
 	var loop *ast.ForStmt
 	ast.Inspect(replay.Body, func(n ast.Node) bool {
@@ -441,10 +451,27 @@ func runC21(c *Ctx) {
 			}
 			ok = !back
 			det = "reset with the allocation-dropping Reset() on every path back to the loop head"
+			// ... and nothing is put back into it afterwards
+			for _, n := range shallowNodes(loop.Body) {
+				as, isAs := n.(*ast.AssignStmt)
+				if !isAs {
+					continue
+				}
+				for _, l := range as.Lhs {
+					if se, isSel := ast.Unparen(l).(*ast.SelectorExpr); isSel && types_ExprString(se.X) == m.name {
+						ok = false
+						det = "a field of the message is assigned in the replay loop (" + replay.Str(as) + "): the next decode does not start from a zero message"
+					}
+				}
+			}
 		}
-		c.Ob("fresh-decode", "replayLogs#"+m.name, loop.Pos(), ok, "message "+m.name+" must not carry buffers of the previous entry into the next decode (the in-memory store keeps the decoded slices; UnmarshalVT appends into existing backing arrays; ResetVT/pool return keep them): "+det)
+		c.Ob(rule, "replayLogs#"+m.name, loop.Pos(), ok, "message "+m.name+" must not carry buffers of the previous entry into the next decode (the in-memory store keeps the decoded slices; UnmarshalVT appends into existing backing arrays; ResetVT/pool return keep them): "+det)
 	}
 
+}
+
+func runC21(c *Ctx) {
+	freshDecodeRule(c, "fresh-decode")
 	applyAfterAppend(c, "write-ahead")
 
 	// codec agreement
@@ -569,6 +596,7 @@ func types_ExprString(e ast.Expr) string {
 // ---------------------------------------------------------------------------------------
 
 func runC22(c *Ctx) {
+	freshDecodeRule(c, "replay-guard")
 	replay := c.Func("kv/aof", "DiskKV", "replayLogs")
 	de := c.Func("kv/aof", "DiskKV", "decodeEntry")
 	apply := replay.CallsTo(false, "kv/aof.DiskKV.handleMutation")
